@@ -305,10 +305,14 @@ def main(argv):
         "wall_s": round(wall, 2),
         "violations": len(violations),
     }
-    os.makedirs(os.path.join(VERIF, "evidence"), exist_ok=True)
-    # a partial (--only) run never overwrites the property's evidence
+    # a partial (--only) run never overwrites the property's evidence, nor does a run against a tree other than /repo
+    # (seeded changes and mutations are checked on scratch copies through VERIF_REPO)
+    evdir = os.path.join(VERIF, "evidence")
+    if os.path.realpath(REPO) != "/repo":
+        evdir = os.path.join(evdir, "scratch")
+    os.makedirs(evdir, exist_ok=True)
     evname = prop + (".partial" if only else "") + ".json"
-    with open(os.path.join(VERIF, "evidence", evname), "w") as f:
+    with open(os.path.join(evdir, evname), "w") as f:
         json.dump(evidence, f, indent=1)
     print("%s %s: obligations=%d discharged=%d inconclusive=%d violations=%d known=%d paths=%d queries=%d wall=%.0fs" %
           (prop, tier, len(insts), discharged, len(inconclusive), len(violations), len(known_seen),
